@@ -1,4 +1,5 @@
 import Luqum.Driver.Codec
+import Luqum.Model.ParserInst
 
 namespace Luqum.Ops
 open Lean (Json)
@@ -17,6 +18,13 @@ def handle (j : Json) : Except String Json := do
   | "clone" =>
     let t ← getTree (← j.getObjVal? "tree")
     return Json.mkObj [("tree", treeJ t.cloneItem)]
+  | "parse" =>
+    let q ← getStr j "q"
+    match parse q with
+    | .ok t => return Json.mkObj [("ok", treeJ t)]
+    | .error e =>
+      let (cls, msg) := e.render
+      return Json.mkObj [("err", Json.arr #[Json.str cls, Json.str msg])]
   | "echo" =>
     let t ← getTree (← j.getObjVal? "tree")
     return Json.mkObj [("tree", treeJ t)]
